@@ -76,10 +76,11 @@ def run(tier, seed, replay=None):
     for t, v in zip(st, sv):
         pops = [i for i, e in enumerate(t["steps"]) if e["k"] == "pop" and len(e["comp"]) >= 2]
         fins = [i for i, e in enumerate(t["steps"]) if e["k"] == "finish"]
-        if v.get("div") or not pops or len(fins) < 2:
+        if v.get("div") or not pops or len(fins) < 2 or not any(i + 1 < len(t["steps"]) and t["steps"][i + 1]["k"] == "pop" for i in fins):
             continue
         c = copy.deepcopy(t); c["steps"][pops[0]]["comp"] = c["steps"][pops[0]]["comp"][:-1]; sctl.append((c, "Pop.component_is_not"))
-        c = copy.deepcopy(t); c["steps"][fins[0]]["low"] += 1; sctl.append((c, "Finish.lowlink_root_test"))
+        roots = [i for i in fins if i + 1 < len(t["steps"]) and t["steps"][i + 1]["k"] == "pop"]     # a root's finish: low == index,
+        c = copy.deepcopy(t); c["steps"][roots[0]]["low"] += 1; sctl.append((c, "Finish.lowlink_root_test"))  # so low + 1 must flip the test
         c = copy.deepcopy(t); del c["steps"][pops[0]]; sctl.append((c, "Pop.missing|Finish.stack_not_empty"))
         break
     if not sctl:
